@@ -424,7 +424,7 @@ BRANCH_STATUS = [
     ('term', 'return const / (s - arg)', 'model+theorem exp_entry'),
     ('term', 'expr.func == sym.exp', 'model+theorem exp_entry'),
     ('term', 'self.integral(', 'model+theorems integral_entry / conv_entry / conv_exp_entry'),
-    ('term', 'self.sin_cos(', 'model+theorems sin_cos_entry(_any_field/_beta), sin_cos_is_integral'),
+    ('term', 'self.sin_cos(', 'model+theorems sin_cos_entry(_beta), sin_cos_is_integral'),
     ('term', 'return expr.args[1]', 'model (flag Gen.deltaUndefSifts)+theorems delta_undef_spec/entry; finding C09-F25'),
     ('term', 'delta, fun = expr.args', 'model (flag Gen.deltaUndefSifts)+theorems delta_undef_spec/entry'),
     ('term', 'self.derivative_undef(', 'model+theorems deriv_undef_entry(_zic), deriv_undef_at_spec/entry'),
